@@ -5,6 +5,7 @@ sys.path.insert(0, os.path.dirname(os.path.dirname(os.path.abspath(__file__))))
 from pyvc.contract import REGISTRY
 from pyvc.run import verify_case
 import pyvc.natives
+import pyvc.pandas_model
 mods = sys.argv[1].split(',')
 for m in mods:
     importlib.import_module('contracts.' + m)
